@@ -284,6 +284,8 @@ def leaf_families(res):
     import ahb  # noqa: F401
     from ahbicht.expressions.ahb_expression_parser import parse_ahb_expression_to_single_requirement_indicator_expressions
     from ahbicht.expressions.condition_expression_parser import parse_condition_expression_to_tree
+    from ahbicht.json_serialization.concise_condition_key_tree_schema import ConciseConditionKeyTreeSchema
+    from ahbicht.json_serialization.concise_tree_schema import ConciseTreeSchema
     from ahbicht.json_serialization.tree_schema import TreeSchema
     rng = random.Random(seed() * 31 + 19)
     pk = rng.randint(1, 99)
@@ -298,6 +300,17 @@ def leaf_families(res):
         for e, tree in seq:
             res.count("round_trips")
             case = {"kind": "leaf-family", "string": e, "order": order, "family": [x for x, _ in seq]}
+            if order != "as listed":
+                # the less-used serialisers of the same trees (dump only) and a load that fails are part of the history as well
+                for other in (ConciseTreeSchema, ConciseConditionKeyTreeSchema):
+                    try:
+                        other().dump(tree)
+                    except BaseException:  # pylint:disable=broad-except  # noqa: BLE001 - not judged (C19 does not speak about the concise formats)
+                        pass
+                try:
+                    TreeSchema().load({"type": "condition", "children": [{"token": None, "tree": {"no": "tree"}}]})
+                except BaseException:  # pylint:disable=broad-except  # noqa: BLE001 - a refused document
+                    pass
             try:
                 back = roundtrip(TreeSchema, tree)
             except BaseException as ex:  # pylint:disable=broad-except  # noqa: BLE001
